@@ -47,6 +47,7 @@ func TestVerifC09(t *testing.T) {
 			"L5: per round 3-6 names (TTL 20 s..1 day; first answer ok / slow with a burst of identical questions / negative / after an upstream error), then 5-10 steps that make one cached entry d seconds older "+
 			"(drift against the bytes' TTL threshold-6..threshold+2 around dae's 15 s repack threshold, almost the whole TTL, expired inside / outside the stale window) and ask through writer / dns_listener / UDP / TCP fast path, one client or 4-12 at once; "+
 			"L6: per pass every shape of upstream answer whose wire size or uncompressed size is B-3..B+3 for B in {512,1024,1232,4096,16384,65535} (TXT records padded to the byte; cacheable and TTL 0) and address record sets of 12..250 records (wire far below uncompressed), each asked through DNS-over-TCP fast path / UDP / dns_listener after another client's question on the same ingress, then as a burst of identical questions against a slow upstream, then again (cache hit), then a concurrent storm; "+
+			"L7: dae's pipelinedConn (tcp/tls upstreams) at its RoundTrip boundary: 8-24 concurrent callers, every question name used once, the scripted upstream answers correctly after 0-300 us, the caller's context is cancelled right after the answer is on the wire / at a drawn moment / never; a returned message must answer the call's own question; "+
 			"distinct = (layer, upstream scheme, client path, qtype, colliding-ID overlap, identical-question overlap, reply kind, set of upstream behaviours the question met); "+
 			"non-trivial = the client's question met at least one upstream call or was served from cache while other clients were in flight")
 	m.SetFloor(80)
@@ -83,6 +84,7 @@ func TestVerifC09(t *testing.T) {
 	nL4 := vk.Scale(150, 3000)
 	nL5 := vk.Scale(180, 3600)
 	nL6 := vk.Scale(2, 30) // passes over the full set of size shapes
+	nL7 := vk.Scale(40, 600)
 	stop := func() bool { return m.Violations() >= 8 && os.Getenv("VERIF_C09_NOSTOP") == "" }
 	only := os.Getenv("VERIF_C09_LAYERS") // diagnosis only, e.g. "L3" or "L1,L1r"; a partial run ends INCONCLUSIVE
 	layer := func(name string, n int, f func(i int)) {
@@ -110,6 +112,7 @@ func TestVerifC09(t *testing.T) {
 			shapes = shapes[n:]
 		}
 	})
+	layer("L7", nL7, func(i int) { c09L7Round(m, r, i) })
 	if m.Violations() == 0 {
 		m.Require(
 			"msgs_judged", "answer_markers_checked", "cache_entries_checked", "cache_markers_checked",
@@ -126,6 +129,7 @@ func TestVerifC09(t *testing.T) {
 		)
 		m.Require(c09L5Required()...)
 		m.Require(c09L6Required()...)
+		m.Require(c09L7Required()...)
 	}
 	m.Done(t)
 }
